@@ -26,6 +26,7 @@ RULE = ("engines with the General activation method (Mamdani, Larsen, Takagi-Sug
         "floats; (i)-(iii) are compared with each other (values, fuzzy outputs, exceptions) and (i) with the Lean model. "
         "non-trivial: batch of >= 2 rows with at least one finite output and (a NaN raw value filled by lock-previous / "
         "default, or two different output values); distinct = distinct (engine, batch)")
+RULE += (" Stream `engine-io` (fv/streams/engine_io.py): look-ups by name / index (positive, negative, bool, missing), input_values / output_values / values on float, 0-d and 1-D values, the input_values setter with 0-d / 1-D / 2-D / higher-dimensional arrays, against Op/EngineIO.lean and Op/InputValues.lean.")
 ASSUMPTIONS = ["batch and row results are produced by the same float operations, so they are compared within 1e-12; the "
                "model comparison uses 1e-7 and the fragile-point filter of C01"]
 LEVEL_TEXT = ("Lean theorems: batch_eq_rows (the single fill-forward / default / clip pass of OutputVariable.defuzzify over a "
